@@ -280,6 +280,14 @@ def gen_scenario(rng, knobs=None):
         values = [pool[i] if rng.random() < 0.7 else None for i in range(n)]
         if start is not None and values[start] in (0, {"s": 0}, {"t": []}):
             values[start] = None          # falsy start_value: see C10 (kept out of the engine family)
+        if n >= 2 and rng.random() < K.get("id_values", 0.0):
+            # one state's value is spelled like the id of another state (whose own value is something else)
+            i_, j_ = rng.sample(range(n), 2)
+            if values[j_] is None:
+                values[j_] = {"s": 7}
+            values[i_] = {"sid": j_}
+            if rng.random() < 0.5:
+                start = i_
     acoro = []
     if rng.random() < K["p_async"]:
         mode = K["async_mode"] or rng.choice(["all", "one", "mixed"])
@@ -345,9 +353,16 @@ def gen_scenario(rng, knobs=None):
         # existing transition (declared last; rendered as target.from_.any(...))
         x = rng.randrange(n)
         e_any = ne
-        ne += 1
         kw_any = {"int": False, "val": [], "cond": [], "before": [], "on": [], "after": []}
         donors = [t for t in trans if not t["int"]]
+        if donors and rng.random() < K.get("any_shared_event", 0.0):
+            # the event already has explicit transitions, one of them to the same target: in that state the
+            # generated transition is one more candidate, after the explicit ones
+            d0 = rng.choice(donors)
+            x, e_any = d0["t"], d0["ev"][0]
+            style, mixed, decor = rng.choice(["str", "list"]), None, None
+        else:
+            ne += 1
         if donors and rng.random() < 0.7:
             d = rng.choice(donors)
             kw_any = {"int": False, "val": [list(x_) for x_ in d["val"]],
@@ -402,11 +417,59 @@ def gen_scenario(rng, knobs=None):
             if p_ not in coro_p and rng.random() < 0.6:
                 lstyles[str(p_)] = rng.choice(["classobj", "proxy"])
     hosted = rng.random() < K.get("hosted", 0.0)
-    return {"lstyles": lstyles, "recording_model": rng.random() < K.get("recording_model", 0.0),
+    decoys = ([[0 if rng.random() < 0.7 else rng.randrange(len(ops)), rng.choice([None] + list(range(n)))]
+               for _ in range(rng.randint(1, 2))] if rng.random() < K.get("decoys", 0.0) else [])
+    inst_l = rng.random() < K.get("inst_listeners", 0.0)
+    # exceptions of callbacks that derive from classes Python / asyncio give a meaning to
+    exc_classes = (rng.sample(["runtime", "attr", "key", "type", "notimpl"], rng.randint(1, 3))
+                   if rng.random() < K.get("exc_classes", 0.0) else [])
+    # attribute guards that are properties (their value may change from read to read, a read may raise)
+    prop_guards = False
+    if (rng.random() < K.get("prop_guards", 0.0) and not inst_l and not lstyles and not decoys and not hosted
+            and any(r_[1] == 0 and r_[2] >= 500 for r_ in tbl)):
+        prop_guards = True
+        solo = {}
+        for t in trans:
+            for c in t["cond"]:
+                solo[tuple(c[0])] = solo.get(tuple(c[0]), True) and len(t["cond"]) == 1
+        nprovs_of = {}
+        for prov in provs:
+            for nm in prov:
+                nprovs_of[tuple(nm)] = nprovs_of.get(tuple(nm), 0) + 1
+        for row in tbl:
+            if row[1] == 0 and row[2] >= 500:
+                alone = solo.get((0, row[2]), False) and nprovs_of.get((0, row[2]), 0) == 1
+                row[3] = [{"a": ([["raise", rng.randint(1, 9)]] if (alone and rng.random() < 0.3) else []),
+                           "r": rng.choice(TRUTHY if rng.random() < 0.6 else FALSY)} for _ in range(rng.randint(1, 4))]
+    # some convention-named callbacks of the machine exist on the instance only (assigned in __init__ before
+    # the machine is set up); another instance of the class without them is created first
+    inst_hooks = []
+    if rng.random() < K.get("inst_hooks", 0.0):
+        others2 = {tuple(nm) for prov in provs[1:] for nm in prov}
+        inst_hooks = [list(nm) for nm in provs[0] if nm[0] in (1, 2, 3, 4, 5, 6, 7, 8, 9, 10) and rng.random() < 0.7]
+        if inst_hooks:
+            decoys = [[0, None]] + decoys
+    # a decoy instance of the class whose model / listeners are of twin classes with the other kind of functions
+    twin_decoy = None
+    if rng.random() < K.get("twin_decoy", 0.0) and not lstyles and not inst_l and len(provs) >= 2:
+        coro0 = any(x[0] == 0 for x in acoro)
+        if acoro and not coro0:
+            twin_decoy = "plain"
+        elif not acoro and any(provs[1:]):
+            twin_decoy = "coro"
+        if twin_decoy:
+            decoys = [[0, None]] + decoys
+    # value-object listeners: distinct listener objects that compare and hash equal
+    eqgroups = None
+    if len(provs) > 3 and rng.random() < K.get("eqgroups", 0.0):
+        eqgroups = {str(p_): rng.randint(1, 2) for p_ in range(2, len(provs))}
+        eqgroups["3"] = eqgroups["2"]
+    alias_inherit = style == "assign" and not any_group and rng.random() < K.get("alias_inherit", 0.0)
+    return {"eqgroups": eqgroups, "alias_inherit": alias_inherit, "exc_classes": exc_classes, "prop_guards": prop_guards, "inst_hooks": inst_hooks, "twin_decoy": twin_decoy,
+            "sig_attr": rng.random() < K.get("sig_attr", 0.0), "lstyles": lstyles, "recording_model": rng.random() < K.get("recording_model", 0.0),
             "user_tna": rng.random() < K.get("user_tna", 0.0), "wrapped_coros": wrapped_coros, "base_exc": rng.random() < K.get("base_exc", 0.0), "stop_iter": rng.random() < K.get("stop_iter", 0.0), "any_group": any_group, "hosted": hosted, "callable_names": callable_names, "state_decor": state_decor, "decor": decor,
             "evstyle": style, "mixed": mixed, "values": values, "async": acoro, "falsy_machine": rng.random() < K["falsy_machine"], "n": n, "initial": initial, "finals": finals, "ne": ne, "trans": trans, "states": states,
             "provs": provs, "start": start, "rtc": rtc, "allow": rng.random() < K["allow"],
             "field0": field0, "tbl": tbl, "ops": ops,
-            "falsy_model": rng.random() < K.get("falsy_model", 0.0), "inst_listeners": rng.random() < K.get("inst_listeners", 0.0),
-            "decoys": ([[0 if rng.random() < 0.7 else rng.randrange(len(ops)), rng.choice([None] + list(range(n)))]
-                        for _ in range(rng.randint(1, 2))] if rng.random() < K.get("decoys", 0.0) else [])}
+            "falsy_model": rng.random() < K.get("falsy_model", 0.0), "inst_listeners": inst_l,
+            "decoys": decoys}
